@@ -17,6 +17,22 @@ TRUSTED = (
 )
 
 CHECKS = {
+    "C02": dict(
+        technique="TLA+ specs Narrowing.tla + Boolability.tla (over Assign/ValueAlgebra/Values): transcription of the "
+        "condition->constraint mapping, AbstractConstraint invert/apply, Constraint.apply_to_value, the IsAssignable / Equals / "
+        "In / len predicates and get_boolability; TLC proves N1 (no loss), N2 (no widening), N3 (always-true/false verdicts) "
+        "against Member + a CPython model of the conditions; every TLC-generated (V, condition) is replayed through "
+        "stacked_scopes.constrain_value with real Constraint objects (and their invert()) and as a generated if/else or match "
+        "function through the visitor; observations adjudicated by TLC (NarrowingTrace.tla), which first validates the "
+        "condition model against real CPython on all 43 objects",
+        text="Model checking: 346 depth-1 (+267 depth-2) type terms x ~170 atomic conditions of 15 kinds + not/and/or and match "
+        "patterns, both polarities (11k states quick, 106k thorough); exhaustive replay (24k / 202k real observations, drift "
+        "0), depth-2 by TLC simulation; six named deviation classes stated on the lost object (known_findings.jsonl).",
+        design="2/C02",
+        note=TRUSTED + " == / != / in / value patterns quantify only over type-respecting equality, as the property says; two "
+        "gradual-typing leniencies are excluded from N1 for TypeIs against a parametrised type; sequence/mapping/class-subpattern "
+        "match patterns, comparison predicates other than len, TypedDict/Callable/TypeVar/Annotated values are not covered.",
+    ),
     "C03": dict(
         technique="TLA+ specs Values.tla (object/type universe, Member relation) + Assign.tla (transcription of the can_assign "
         "dispatch); TLC proves ImplCA(A, Known(o)) = Member(o, A) for every static type term x object; each (A, o) is replayed "
@@ -105,6 +121,23 @@ CHECKS = {
         design="2/C11",
         note=TRUSTED + " Diagnostics are realised with module-level lambdas (undefined_name, unsupported_operation).",
     ),
+    "C13": dict(
+        technique="TLA+ specs Annotations.tla (transcriptions of pyanalyze's three annotation evaluators -- runtime object, "
+        "string/forward reference, checker's visitor -- over a validated model of CPython's typing normalisation) and "
+        "DefHeaders.tla (compute_parameters vs inspect.signature + from_signature) checked by TLC; every TLC-enumerated/"
+        "simulated expression and def header realised as source and pushed through the real routes (type_from_runtime on "
+        "eval(E) and on 'E', reveal_type of a parameter, get_argspec from plain and PEP 563 modules, nested-def signature, each "
+        "call in three contexts); observations adjudicated by TLC (AnnotationsTrace.tla / DefHeadersTrace.tla), which first "
+        "validate the CPython models against real eval() / inspect.signature",
+        text="Model checking: TLC proves the three evaluators mean the same type for every expression of <=3 (quick) / <=4 "
+        "(thorough, 1.8M states) forms over 32 leaf / 22 unary / 7 binary forms, and that def-derived and runtime-derived "
+        "signatures agree for every header of <=2 / <=3 parameters over all five kinds, defaults, annotations, async and PEP "
+        "563, outside two named deviation classes (three more were repaired); simulation to 7 forms / 4 parameters. The real "
+        "code is bound to the model by replay (drift 0) and every real result is judged by TLC.",
+        design="2/C13",
+        note=TRUSTED + " RefSame / RefSameSig define 'up to representation'; typing's caches are cleared per case; return types of "
+        "calls compared only when declared; vocabulary = prelude of c13.py; Python 3.12.1.",
+    ),
     "C14": dict(
         technique="TLA+ specs ValueAlgebra.tla (ImplEq, ImplSameHash, ImplUnite) + Algebra.tla (ImplSubst, the semilattice / hash / "
         "substitution laws, named deviation classes) checked by TLC on every triple of the bounded term space; each triple "
@@ -145,6 +178,22 @@ CHECKS = {
         design="2/C16",
         note=TRUSTED + " Replacement fixes other than add-ignores are not yet covered by this check.",
     ),
+    "C17": dict(
+        technique="TLA+ specs PercentFormat.tla / StrFormat.tla (transcription of format_strings.py + _str_format_impl vs an "
+        "independent model of CPython 3.12's %-formatter and str.format incl. the format-spec mini-language), exhaustive TLC + "
+        "simulation; every enumerated case realised as an expression, checked by the real visitor and really evaluated by "
+        "CPython; observations adjudicated by TLC (PercentFormatTrace / StrFormatTrace), which first validates the CPython "
+        "model against the real outcome",
+        text="Model checking: TLC proves 'CPython raises => reported', 'CPython succeeds => nothing reported outside the "
+        "documented lints' and 'inferred type = result type' for every %-template of <=3 (quick) / <=4 (thorough) tokens x "
+        "literal scalar/tuple/dict arguments x str/bytes, and every str.format template of <=4 / <=5 tokens x positional/"
+        "keyword arguments, outside 14 named deviation classes (known_findings.jsonl). The real code is bound by replaying the "
+        "enumerated cases with TLC judging each real report against the real CPython outcome; drift 0.",
+        design="2/C17",
+        note=TRUSTED + " CPython 3.12.1 is the oracle (its TLA+ model is re-validated on every observation). Acceptance and result "
+        "type only, not rendered text. -coverage is unusable on these specs (OOM); vacuity is controlled by observation "
+        "classes, strict and seeded-bug configs.",
+    ),
     "C18": dict(
         technique="TLA+ spec Config.tla (options.py transcription vs documented precedence) checked exhaustively by TLC; "
         "every TLC-enumerated/simulated case replayed through real TOML files + pyanalyze.options and adjudicated by TLC "
@@ -170,6 +219,23 @@ CHECKS = {
         note=TRUSTED + " CPython 3.12.1 as executed here is the oracle (the TLA model of its protocol is validated against it on "
         "every observation). pyanalyze's signature/stub layer is not modelled: its verdict per candidate call is a recorded "
         "fact. NAME.attr with attr in the documented ignored_end_of_reference default is excluded.",
+    ),
+    "C20": dict(
+        technique="TLA+ spec TypeEval.tla: evaluator bodies generated line by line (if/elif/else, and/or/not of is_of_type, "
+        "comparisons, is_provided/is_positional/is_keyword, version/platform checks, return, show_error) x signature x call "
+        "shape x argument types; RefObs = documented semantics (docs/type_evaluation.md) with one execution per combination of "
+        "union members, ImplObs = transcription of ConditionEvaluator / EvaluateVisitor and of the positions computed by "
+        "bind_arguments; exhaustive TLC + simulation; every emitted case realised as a real @evaluated function and call, "
+        "checked by NameCheckVisitor with Evaluator.evaluate wrapped, each observation adjudicated by TLC (TypeEvalTrace.tla)",
+        text="Model checking: for every body of <=3 lines/1 if/2-atom conditions and <=4 lines/2 ifs over the tier's atom set x "
+        "signatures x call shapes x argument types (quick ~3e5, thorough ~4.2e6 states, plus simulation over the full grammar) "
+        "the implementation model equals the documented per-member evaluation or falls in one of six named deviation classes; "
+        "the argument-kind predicates are the documented ones for every signature x call shape; the real checker is bound by "
+        "replay (2e4 quick / 3e5 thorough cases judged by TLC, drift 0).",
+        design="2/C20",
+        note=TRUSTED + " The oracle is written from docs/type_evaluation.md on the atoms Literal[1], Literal[2], Literal['x'], "
+        "Literal['y'], None, int, str, Any; CPython for sys.version_info / sys.platform (recorded and checked against the "
+        "oracle). Action coverage comes from a generator-only run.",
     ),
 }
 
